@@ -535,6 +535,19 @@ class Quot:
             return Quot(v)
         raise Undecided(f"quotient arithmetic {type(op).__name__}")
 
+    def abs_compare(self, op, other, reflected):
+        # ordering against a literal number: by the exact value (a quotient that is not exactly representable sits within an ulp of it, so only equality is fragile)
+        from ..absint import PYCMP
+        if isinstance(other, Quot):
+            o = other.v
+        elif isinstance(other, (int, float, Fr)) and not isinstance(other, bool):
+            o = Fr(str(other)) if isinstance(other, float) else Fr(other)
+        else:
+            raise Undecided(f"comparison of a quotient with {other!r}")
+        if self.inexact and self.v == o:
+            raise Undecided("comparison of a float quotient with the value it equals only on the reals")
+        return PYCMP[type(op)](o, self.v) if reflected else PYCMP[type(op)](self.v, o)
+
     def __format__(self, spec):
         return format(float(self.v), spec)
 
@@ -632,7 +645,7 @@ def run(chk):
     chk.clause("D4b", "the interval operations keep no state between calls (C10-D4 shared-state rule over skgenome): resize_ranges(bp) after resize_ranges(bp, chrom_sizes) does not see the earlier sizes")
     from . import C10
     C10.shared_state(chk, prog, modules=("skgenome",))
-    spans = [(1000, 300, 0), (1000, 3000, 0), (100, 300, 0), (449, 300, 0), (450, 300, 0), (751, 300, 0), (1500, 300, 0), (1800, 300, 0),
+    spans = [(10, 4, 6), (1000, 300, 400), (1000, 300, 0), (1000, 3000, 0), (100, 300, 0), (449, 300, 0), (450, 300, 0), (751, 300, 0), (1500, 300, 0), (1800, 300, 0),
              (299, 300, 300), (300, 300, 300), (301, 300, 300), (10, 300, 11), (7, 2, 0), (1798, 200 / 0.75, 0), (2000, 300, 0), (250, 100, 0), (350, 100, 0), (450, 100, 0)]
     if chk.tier == "thorough":
         spans += [(sp, av, mn) for sp in (1, 2, 5, 149, 150, 151, 600, 601, 899, 900, 1234, 2000) for av in (100, 267, 300) for mn in (0, 150, sp, sp + 1)]
